@@ -179,14 +179,8 @@ def check_validation(ctx, num=2):
 
 
 def _loop_env(f, lp: ast.For) -> Dict[str, ast.expr]:
-    """Names assigned exactly once inside the body of lp (per-iteration temporaries)."""
-    env = {}
-    cnt = {}
-    for n in ast.walk(lp):
-        if isinstance(n, ast.Assign) and len(n.targets) == 1 and isinstance(n.targets[0], ast.Name):
-            cnt[n.targets[0].id] = cnt.get(n.targets[0].id, 0) + 1
-            env[n.targets[0].id] = n.value
-    return {k: v for k, v in env.items() if cnt[k] == 1}
+    from ..util import loop_env
+    return loop_env(lp)
 
 
 def check_duration(ctx, num=3):
